@@ -251,3 +251,46 @@ func H_C04_total_strings() {
 	}
 	verifReach("end")
 }
+
+// the same input always gives the same outcome — also when other documents (rejected ones with undecodable
+// escapes included) were parsed in between
+func H_C04_same_outcome_in_any_history() {
+	a := hAscii(1)
+	docs := []string{`["x` + a + `y"]`, `{"k` + a + `":"v` + a + `"}`, `[1,"` + a + `",[true]]`}
+	bad := []string{`["p\q"]`, `["\ud800"]`, `{"a":"\x"}`, `["abc`, `{"k":"v`, `[1,`, `["zz\u12"]`}
+	d := docs[nondetIntRange(0, len(docs)-1)]
+	isList := d[0] == '['
+	c1, e1, p1 := hParseAny(isList, d)
+	verifAssert(!p1, "parsing never panics")
+	b := bad[nondetIntRange(0, len(bad)-1)]
+	_, _, pb := hParseAny(b[0] == '[', b)
+	verifAssert(!pb, "parsing never panics")
+	d2 := docs[nondetIntRange(0, len(docs)-1)]
+	_, _, p3 := hParseAny(d2[0] == '[', d2)
+	verifAssert(!p3, "parsing never panics")
+	c2, e2, p2 := hParseAny(isList, d)
+	verifAssert(!p2 && (c1 == nil) == (c2 == nil) && (e1 == nil) == (e2 == nil), "the same input gives the same outcome")
+	if c1 != nil && c2 != nil {
+		verifAssert(hExact(hSnapAny(c1), hSnapAny(c2)), "the same input gives the same container, whatever was parsed in between")
+	}
+	verifReach("end")
+}
+
+// ParseFile on files with arbitrary bytes (ill-formed UTF-8 included) before and after the root object
+func H_C04_parsefile_outer_bytes() {
+	pre := hBytesStr(nondetIntRange(0, 1))
+	post := hBytesStr(nondetIntRange(0, 1))
+	for i := 0; i < len(pre); i++ {
+		verifAssume(pre[i] != '{')
+	}
+	data := pre + `{"a":1}` + post
+	path := "/tmp/verif_c04_parsefile2.json"
+	verifSetFile(path, data, true)
+	var fo Object
+	var ferr error
+	p := verifCatch(func() { fo, ferr = ParseFile(path) })
+	verifAssert(!p, "ParseFile never panics")
+	o, err := ParseObject(data)
+	verifAssert((fo == nil) == (o == nil) && (ferr == nil) == (err == nil), "ParseFile returns what ParseObject returns for the file's bytes")
+	verifReach("end")
+}
